@@ -83,6 +83,20 @@ Proof. intros Hu Hy Hw. unfold scatter. rewrite !csumO_RO. apply csum_ext; intro
   rewrite !cscale_RO. bridge. rewrite !(Hy n) by auto. rewrite (Hw n) by auto.
   rewrite (outer_phase_inv (u n)) by auto. reflexivity. Qed.
 
+(* hence the covariance steps of the complex Gaussian, Watson / Bingham and cACG trainers *)
+Theorem cov_steps_phase_inv N D tiny (y : nat -> nat -> C) (s q : nat -> R) (u : nat -> C) (herm : bool) d e :
+  (forall n, (n < N)%nat -> Cmod (u n) = 1%R) ->
+  ccsg_cov RO N tiny (fun n d => u n * y n d) s d e = ccsg_cov RO N tiny y s d e /\
+  watson_cov RO N (fun n d => u n * y n d) s d e = watson_cov RO N y s d e /\
+  cacg_cov RO D N tiny herm (fun n d => u n * y n d) s q d e = cacg_cov RO D N tiny herm y s q d e.
+Proof. intros Hu.
+  assert (Es : forall w d e, scatter RO N (fun n d => u n * y n d) w d e = scatter RO N y w d e).
+  { intros w d0 e0. apply (scatter_phase_inv N y _ w w u d0 e0 Hu); auto. }
+  repeat split.
+  - unfold ccsg_cov. rewrite Es. reflexivity.
+  - unfold watson_cov. rewrite Es. reflexivity.
+  - unfold cacg_cov, hermitize, cacg_cov_raw. destruct herm; rewrite !Es; reflexivity. Qed.
+
 Lemma cabs2_phase (u x : C) : Cmod u = 1%R -> cabs2 RO (u * x) = cabs2 RO x.
 Proof. intros Hu. rewrite !cabs2_RO, Cmod_mult, Hu. ring. Qed.
 
